@@ -488,9 +488,20 @@ def run_F(chk):
     tp = prog.func("yastn.tensor._tests", "_unpack_trans_test_axes_pair")
     pa, pb = tp.params[0], tp.params[1]
     seen = {}
+    # local names for one fusion record: `hfa, hfb = a.hfs[i1], b.hfs[i2]` / `hfa = a.hfs[i1]`
+    rec = {}
+    for n in ast.walk(tp.node):
+        if isinstance(n, ast.Assign):
+            tg, vl = n.targets[0], n.value
+            pairs = list(zip(tg.elts, vl.elts)) if isinstance(tg, ast.Tuple) and isinstance(vl, ast.Tuple) and len(tg.elts) == len(vl.elts) else [(tg, vl)]
+            for t_, v_ in pairs:
+                if isinstance(t_, ast.Name) and isinstance(v_, ast.Subscript) and A.text(v_.value) in (f"{pa}.hfs", f"{pb}.hfs"):
+                    rec[t_.id] = pa if A.text(v_.value) == f"{pa}.hfs" else pb
     for n in ast.walk(tp.node):
         if isinstance(n, ast.Attribute) and n.attr in fields and isinstance(n.value, ast.Subscript) and A.text(n.value.value) in (f"{pa}.hfs", f"{pb}.hfs"):
             seen.setdefault(n.attr, set()).add(A.text(n.value.value)[0:len(pa)] if A.text(n.value.value).startswith(pa + ".") else pb)
+        elif isinstance(n, ast.Attribute) and n.attr in fields and isinstance(n.value, ast.Name) and n.value.id in rec:
+            seen.setdefault(n.attr, set()).add(rec[n.value.id])
     for fld in fields:
         both = len(seen.get(fld, set())) == 2
         chk.verdict("F6", tp, f"_unpack_trans_test_axes_pair compares `{fld}` of both fusion records", True if both else False,
